@@ -34,6 +34,7 @@ CATALOGUE = [
     "iadd_float_into_int_incompatible", "isub_incompatible", "isub_other_ndim", "isub_str", "isub_ndarray",
     "isub_more_than_there", "isub_float_more_than_there", "imul_hist", "idiv_hist", "rdiv", "imul_negative",
     "idiv_negative", "imul_array", "idiv_array", "imul_str", "add_incompatible", "sub_more_than_there",
+    "imul_factor_square_overflows", "idiv_zero",
     # data faults
     "fill_nonscalar", "fill_wrong_length", "fill_str_weight", "fill_n_wrong_rank", "fill_n_wrong_columns",
     "fill_n_weights_wrong_length", "fill_n_weights_str", "fill_n_values_str", "fill_n_grow_then_bad_weights",
@@ -53,6 +54,7 @@ CATALOGUE = [
     "set_frequencies_wrong_shape", "set_frequencies_negative", "set_errors2_wrong_shape", "set_errors2_negative",
     # collection / adaptivity faults
     "collection_other_binning", "collection_add_other_binning", "set_adaptive_on_static",
+    "collection_create_bad_weights", "collection_create_bad_values",
 ]
 FAULT_KINDS = ["invalid:" + c for c in CATALOGUE] + ["fault_after_growth", "derived_object_filled"]
 RULE = ("one run = one live node of a seeded family (1-D fixed int/float, 1-D adaptive, 1-D gapped, 2-D fixed, 2-D "
@@ -77,10 +79,11 @@ ASSUMPTIONS = [
 ]
 
 FAMILIES = ["1d_int", "1d_float", "1d_adaptive", "1d_gapped", "2d_fixed", "2d_adaptive", "2d_gapped_axis", "3d_fixed",
-            "1d_int32", "1d_gapped_int", "1d_float_no_missed", "2d_no_missed", "2d_fortran", "2d_thin"]
+            "1d_int32", "1d_gapped_int", "1d_float_no_missed", "2d_no_missed", "2d_fortran", "2d_thin",
+            "1d_adaptive_unborn", "2d_adaptive_unborn"]
 VALID = ["fill", "fill", "fill_w", "fill_n", "fill_n", "fill_n_w", "iadd_copy", "imul", "idiv", "merge", "set_dtype",
          "normalize", "fill_far", "isub_half", "iadd_float_copy", "isub_small_int", "fill_heavy", "iadd_batch_built",
-         "iadd_batch_built", "fill_a_derived", "fill_a_derived"]
+         "iadd_batch_built", "fill_a_derived", "fill_a_derived", "fill_w200", "fill_w200"]
 
 
 def generate(rng, seed, part):
@@ -123,6 +126,16 @@ def make_node(cfg):
         h = Histogram1D(FixedWidthBinning(bin_width=0.0009765625, bin_count=5000, bin_times_min=0), dtype=np.float64)
     elif fam == "3d_wide":
         h = HistogramND([FixedWidthBinning(bin_width=0.25, bin_count=18, bin_times_min=0) for _ in range(3)])
+    elif fam in ("1d_adaptive_unborn", "2d_adaptive_unborn"):
+        # adaptive, no bins yet - and somebody has already looked at the (empty) bins
+        if fam.startswith("1d"):
+            h = Histogram1D(FixedWidthBinning(bin_width=0.5, bin_count=0, adaptive=True))
+        else:
+            h = Histogram2D([FixedWidthBinning(bin_width=1.0, bin_count=0, adaptive=True),
+                             FixedWidthBinning(bin_width=2.0, bin_count=0, adaptive=True)])
+        _ = h.bins, h.shape
+        if h.ndim == 1:
+            _ = h.bin_left_edges
     elif fam == "1d_adaptive":
         h = Histogram1D(FixedWidthBinning(bin_width=0.5, bin_count=4, bin_times_min=0, adaptive=True))
     elif fam == "1d_gapped":
@@ -181,6 +194,9 @@ def apply_valid(h, kind, arg):
     if kind == "fill_heavy":
         v = base[0] if nd == 1 else base
         return h.fill(v, 100000)
+    if kind == "fill_w200":
+        v = base[0] if nd == 1 else base
+        return h.fill(v, 200)  # content 200, squared error 40000
     if kind in ("fill", "fill_w", "fill_far"):
         if kind == "fill_far":
             base = [x + 5.0 + arg % 3 for x in base]
@@ -211,6 +227,8 @@ def apply_valid(h, kind, arg):
         return None
     if kind == "fill_a_derived":
         # no operation on the node at all: something derived from it is filled (the caller checks the node)
+        if any(b.bin_count == 0 for b in h.binnings):
+            return NotImplemented
         how = ["copy", "T", "projection", "slice", "mul"][arg % 5]
         if how == "T":
             if type(h).__name__ != "Histogram2D":
@@ -350,6 +368,12 @@ def apply_invalid(h, kind, arg):
         h /= np.ones(shape) * 2
     elif kind == "imul_str":
         h *= "2"
+    elif kind == "imul_factor_square_overflows":
+        if np.dtype(h.dtype).kind != "i" or not np.any(np.asarray(h.errors2) > 0):
+            return NotImplemented
+        h *= 2 ** 31  # contents * 2**31 fit int64, squared errors * 2**62 do not
+    elif kind == "idiv_zero":
+        h /= [0, 0.0, np.float64(0.0), np.int64(0)][arg % 4]
     elif kind == "fill_nonscalar":
         if nd != 1:
             return NotImplemented
@@ -432,9 +456,15 @@ def apply_invalid(h, kind, arg):
     elif kind == "dtype_too_narrow":
         f = np.asarray(h.frequencies, dtype=np.float64)
         e = np.asarray(h.errors2, dtype=np.float64)
-        if not (max(f.max(initial=0), e.max(initial=0)) > 70000):
+        top = max(f.max(initial=0), e.max(initial=0))
+        # every type that cannot hold the largest content or squared error (often only the squared errors are too big)
+        targets = [t for t, lim in ((np.int16, 32767), (np.float16, 65504), (np.int32, 2 ** 31 - 1)) if top > lim]
+        if not targets or not np.all(np.isfinite(f)) or not np.all(np.isfinite(e)):
             return NotImplemented
-        h.set_dtype(np.float16 if arg % 2 else np.int16)
+        if (arg >> 4) % 2:
+            h.dtype = targets[arg % len(targets)]
+        else:
+            h.set_dtype(targets[arg % len(targets)])
     elif kind == "projection_bad_index":
         if nd == 1:
             return NotImplemented
@@ -507,9 +537,29 @@ def apply_invalid(h, kind, arg):
         if all(b.adaptive_allowed for b in h.binnings):
             return NotImplemented
         h.set_adaptive(True)
+    elif kind in ("collection_create_bad_weights", "collection_create_bad_values"):
+        if nd != 1:
+            return NotImplemented
+        coll = HistogramCollection(h)
+        names_before = [m.name for m in coll.histograms]
+        try:
+            if kind.endswith("weights"):
+                coll.create("late", [lo_inside(h)] * 3, weights=[1.0, 2.0])
+            else:
+                coll.create("late", ["a", "b"])
+        except Exception as exc:
+            names_after = [m.name for m in coll.histograms]
+            if names_after != names_before:
+                raise LeftBehind(f"HistogramCollection.create raised {exc!r} but the collection now holds "
+                                 f"{names_after} (was {names_before})") from exc
+            raise
     else:
         return NotImplemented
     return None
+
+
+class LeftBehind(Exception):
+    """A refused call that nevertheless changed what a collection records."""
 
 
 def lo_inside(h):
@@ -617,6 +667,9 @@ def execute(plan, ctx):
                 ctx.probe(f"invalid_call_accepted:{kind}")
                 return
             ctx.fault("invalid:" + kind)
+            if isinstance(res, LeftBehind):
+                ctx.violation("C18/failed-op-changes-nothing", f"C18/changed-after-raise/invalid:{kind}/collection-members",
+                              str(res))
             if grown:
                 ctx.fault("fault_after_growth")
             raised_any = True
